@@ -7,7 +7,16 @@
     arguments, return type, visibility, doc and convention and has body "call <name> on field b_i";
     it keeps the name when still unused, else is called <field>_<name>.  RustExec: calling it equals
     calling the original on the object at [self + offset(b_i)], and that offset is the prefix-sum
-    offset of the base field in the emitted struct (the declared address, by C01). *)
+    offset of the base field in the emitted struct (the declared address, by C01).
+
+    SECOND HALF (AsRef/AsMut), at the end of this file: [C07_hierarchy_*], [C07_asref_*] -- the
+    hierarchy specified independently of the emitter ([HierSpec.bases_of]); the conversion items
+    read back from the emitted tokens are, for every sub-object whose type occurs once, exactly one
+    AsRef and one AsMut impl borrowing the place [self.<field path>]; for a type occurring more than
+    once no impl, one [_CONFLICTING_] const per sub-object; the reflexive pair; nothing else; the
+    place is at the sub-object's actual offset ([ConvOffset.sub_at]: the sum of the prefix-sum
+    offsets of the nested base fields), under sized regions and distinct field names along the
+    chain; end to end for every type of an accepted build ([C07_asref_whole_build]). *)
 From Coq Require Import List NArith ZArith Bool String Lia.
 From PyxisModel Require Import Base Grammar SemTypes Registry Sem SemLemmas PlacementLemmas
      InheritLemmas RustExec ExecLemmas WholeBuild WholeBuildMore.
@@ -68,3 +77,187 @@ Theorem C07_whole_build : forall order ptr mods st0 st p it0 gd td0 it r td,
 Proof. exact WholeBuildMore.C07_whole_build. Qed.
 Print Assumptions C07_whole_build.
 
+(** ** C07, second half — reference conversions to base types.
+
+    "For every direct or transitive base type that occurs once in the hierarchy the derived type
+    converts by reference (AsRef/AsMut) to that base at the base's actual offset, and for a base
+    type that occurs more than once no such conversion is emitted."
+
+    PROVED (theories/HierSpec.v, ConvReaders.v, ConvShape.v, ConvOffset.v, ConvFinal.v):
+    - the hierarchy is specified independently of the emitter ([bases_of]); the emitter's
+      [dfs_hierarchy] computes it, for every fuel that does not end in the model's fuel panic;
+    - the items [conversions] emits, read back with readers that do not mention the printers
+      ([read_as_ref], [read_conflict_const]), are: for every sub-object [(fp, t)] of the hierarchy
+      whose type occurs once, exactly one [AsRef<t>] and one [AsMut<t>] impl for the type, whose
+      bodies borrow the place [self.fp]; for a type that occurs more than once, no impl to it, and
+      one [_CONFLICTING_] const per sub-object instead; the reflexive pair; nothing else;
+    - the place [self.fp] (fields looked up by name) is at the sub-object's actual offset: the sum,
+      along the chain of nested base fields, of the prefix-sum offset of each base field in the
+      struct that contains it (by C01/C02 the declared addresses), provided regions are sized and
+      field names are distinct along the chain;
+    - end to end, for every type of an accepted build, in the file of its module, w.r.t. the
+      hierarchy computed in the FINAL registry.
+    "The base's actual offset" in the model: [ConvOffset.sub_at]. *)
+From PyxisModel Require Import Base Sexp Grammar SemTypes Registry Sem RustExec PlacementLemmas Emit
+     WholeBuild EmitReaders EmitShape EmitFinal HierSpec ConvReaders ConvShape ConvOffset ConvFinal.
+Import ListNotations.
+Local Open Scope string_scope.
+Local Open Scope list_scope.
+
+(** ** the hierarchy *)
+Theorem C07_hierarchy_is_spec : forall fuel R td h,
+  dfs_hierarchy fuel R td [] = Ok h ->
+  bases_of R td [] h /\ (forall h', bases_of R td [] h' -> h' = h).
+Proof.
+  intros fuel R td h H. split; [eapply dfs_hierarchy_sound; eauto|].
+  intros h' H'. symmetry. eapply dfs_hierarchy_spec; eauto.
+Qed.
+Print Assumptions C07_hierarchy_is_spec.
+
+Theorem C07_hierarchy_fuel : forall f1 f2 R td pre,
+  dfs_hierarchy f1 R td pre = dfs_hierarchy f2 R td pre \/
+  dfs_hierarchy f1 R td pre = fuel_panic \/ dfs_hierarchy f2 R td pre = fuel_panic.
+Proof. exact dfs_hierarchy_fuel_only. Qed.
+Print Assumptions C07_hierarchy_fuel.
+
+Theorem C07_hierarchy_prefix : forall fuel R td pre,
+  dfs_hierarchy fuel R td pre = omap (map (prepend pre)) (dfs_hierarchy fuel R td []).
+Proof. exact dfs_hierarchy_prefix. Qed.
+Print Assumptions C07_hierarchy_prefix.
+
+(** ** the emitted conversions *)
+Theorem C07_asref_read : forall R fuel name td conv,
+  conversions R fuel name td = Ok conv ->
+  exists h,
+    bases_of R td [] h /\ dfs_hierarchy fuel R td [] = Ok h /\
+    forallb (fun x => forallb ident_ok (fst x)) h = true /\
+    forallb (fun x => stype_ok (snd x)) h = true /\
+    all_somes read_as_ref conv = base_impls name h ++ refl_impls name /\
+    all_somes read_conflict_const conv = spec_conflicts name h /\
+    Forall conv_item conv.
+Proof. exact conversions_read. Qed.
+Print Assumptions C07_asref_read.
+
+Theorem C07_asref_unique_base : forall R fuel name td conv h fp t,
+  conversions R fuel name td = Ok conv -> bases_of R td [] h ->
+  In (fp, t) h -> occurrences t h = 1%nat ->
+  exists l1 l2,
+    all_somes read_as_ref conv
+      = l1 ++ [conv_of name false (type_tokens t) fp; conv_of name true (type_tokens t) fp] ++ l2 ++ refl_impls name /\
+    Forall (fun ci => ci_target ci <> type_tokens t) (l1 ++ l2) /\
+    exists e1 e2, In e1 conv /\ In e2 conv /\
+      read_as_ref e1 = Some (conv_of name false (type_tokens t) fp) /\
+      read_as_ref e2 = Some (conv_of name true (type_tokens t) fp).
+Proof. intros. eapply conversions_unique_base; eauto. Qed.
+Print Assumptions C07_asref_unique_base.
+
+Theorem C07_asref_repeated_base : forall R fuel name td conv h t,
+  conversions R fuel name td = Ok conv -> bases_of R td [] h ->
+  2 <= occurrences t h ->
+  (forall e ci, In e conv -> read_as_ref e = Some ci -> ci_target ci = type_tokens t ->
+                In ci (refl_impls name) /\ type_tokens t = [tk name]) /\
+  (forall fp, In (fp, t) h ->
+     exists e, In e conv /\ read_as_ref e = None /\
+       read_conflict_const e
+         = Some (conflict_name name fp, doc_lines (conflict_doc name t (map fst (same_type t h))))).
+Proof. intros. eapply conversions_repeated_base; eauto. Qed.
+Print Assumptions C07_asref_repeated_base.
+
+Theorem C07_asref_repeated_base_in_module : forall R fuel name td conv h a b r,
+  conversions R fuel name td = Ok conv -> bases_of R td [] h ->
+  2 <= occurrences (TRaw (a :: b :: r)) h ->
+  forall e ci, In e conv -> read_as_ref e = Some ci -> ci_target ci <> type_tokens (TRaw (a :: b :: r)).
+Proof. intros. eapply conversions_repeated_base_qualified; eauto. Qed.
+Print Assumptions C07_asref_repeated_base_in_module.
+
+Theorem C07_asref_reflexive : forall R fuel name td conv,
+  conversions R fuel name td = Ok conv ->
+  exists pre e1 e2, conv = pre ++ [e1; e2] /\
+    read_as_ref e1 = Some (conv_of name false [tk name] []) /\
+    read_as_ref e2 = Some (conv_of name true [tk name] []).
+Proof. exact conversions_reflexive. Qed.
+Print Assumptions C07_asref_reflexive.
+
+Theorem C07_asref_nothing_else : forall R fuel name td conv h,
+  conversions R fuel name td = Ok conv -> bases_of R td [] h ->
+  Forall conv_item conv /\
+  List.length conv = (List.length (base_impls name h) + 2 + List.length (spec_conflicts name h))%nat.
+Proof. exact conversions_nothing_else. Qed.
+Print Assumptions C07_asref_nothing_else.
+
+Theorem C07_asref_every_impl : forall R fuel name td conv h e ci,
+  conversions R fuel name td = Ok conv -> bases_of R td [] h ->
+  In e conv -> read_as_ref e = Some ci ->
+  ci_self ci = name /\ ci_ret ci = ci_target ci /\
+  ((ci_path ci = [] /\ ci_target ci = [tk name]) \/
+   exists t, In (ci_path ci, t) h /\ occurrences t h = 1%nat /\ ci_target ci = type_tokens t).
+Proof. intros. eapply conversions_every_impl; eauto. Qed.
+Print Assumptions C07_asref_every_impl.
+
+(** ** the offset *)
+Theorem C07_asref_offset : forall R td h,
+  bases_of R td [] h -> hier_ok R (td_regions td) ->
+  Forall (fun x => exists off,
+            sub_at R (td_regions td) (fst x) off (snd x) /\
+            place_offset R td (fst x) = Some (off, Some (snd x)) /\
+            forall self, place_addr R td self (fst x) = Some (self + off)%N) h.
+Proof. exact hierarchy_path_offset. Qed.
+Print Assumptions C07_asref_offset.
+
+(** a direct base: the offset is the one the forwarded functions use ([C07_exec]) *)
+Theorem C07_asref_direct_base_offset : forall R td h name t,
+  bases_of R td [] h -> hier_ok R (td_regions td) -> In ([name], t) h ->
+  exists off r, field_offset R (td_regions td) name 0%N = Some (off, t) /\
+    In (off, r) (offsets_of R 0%N (td_regions td)) /\ r_name r = Some name /\ r_type r = t /\
+    forall self, place_addr R td self [name] = Some (self + off)%N.
+Proof. exact direct_base_offset. Qed.
+Print Assumptions C07_asref_direct_base_offset.
+
+(** ** end to end *)
+Theorem C07_asref_whole_build : forall order ptr mods st0 st files p it0 gd td0,
+  input_state ptr mods = Ok st0 -> NoDup (map fst mods) -> collision_free (st_reg st0) ->
+  keeps_work order ->
+  pyxis_resolve order ptr mods = BOk st -> write_all st = Ok files ->
+  reg_get (st_reg st0) p = Some it0 -> it_state it0 = Unresolved gd -> gi_inner gd = GIType td0 ->
+  path_parent p <> Some [] ->
+  exists parent name it r td f pre s mid conv post h,
+    path_parent p = Some parent /\ path_last p = Some name /\
+    reg_get (st_reg st) p = Some it /\ it_state it = Resolved r /\ rs_inner r = IType td /\
+    In (out_path parent, f) files /\
+    file_items f = Some (pre ++ (s :: mid ++ conv) ++ post) /\
+    find_struct name (pre ++ (s :: mid ++ conv) ++ post) = Some s /\
+    struct_shape name (rs_align r) (it_vis it0) td s /\
+    Forall not_conv (s :: mid) /\
+    bases_of (st_reg st) td [] h /\
+    conversions (st_reg st) (S (List.length (reg_types (st_reg st)))) name td = Ok conv /\
+    forallb (fun x => forallb ident_ok (fst x)) h = true /\
+    forallb (fun x => stype_ok (snd x)) h = true /\
+    all_somes read_as_ref (s :: mid ++ conv) = base_impls name h ++ refl_impls name /\
+    all_somes read_conflict_const (s :: mid ++ conv) = spec_conflicts name h /\
+    Forall conv_item conv /\
+    Forall (fun x => exists off, sub_at (st_reg st) (td_regions td) (fst x) off (snd x)) h /\
+    (hier_ok (st_reg st) (td_regions td) ->
+     Forall (fun x => exists off,
+               sub_at (st_reg st) (td_regions td) (fst x) off (snd x) /\
+               place_offset (st_reg st) td (fst x) = Some (off, Some (snd x)) /\
+               forall self, place_addr (st_reg st) td self (fst x) = Some (self + off)%N) h).
+Proof. exact emitted_conversions_whole_build. Qed.
+Print Assumptions C07_asref_whole_build.
+
+Theorem C07_asref_offsets_whole_build : forall order ptr mods st0 st p it0 gd td0 it r td h,
+  input_state ptr mods = Ok st0 -> collision_free (st_reg st0) ->
+  pyxis_resolve order ptr mods = BOk st ->
+  reg_get (st_reg st0) p = Some it0 -> it_state it0 = Unresolved gd -> gi_inner gd = GIType td0 ->
+  reg_get (st_reg st) p = Some it -> it_state it = Resolved r -> rs_inner r = IType td ->
+  bases_of (st_reg st) td [] h ->
+  Forall (fun x => declared_type st0 (snd x)) h ->
+  NoDup (region_names (td_regions td)) ->
+  Forall (fun x => forall bp btd, snd x = TRaw bp -> typedef_of (st_reg st) bp = Some btd ->
+                                  NoDup (region_names (td_regions btd))) h ->
+  hier_ok (st_reg st) (td_regions td) /\
+  Forall (fun x => exists off,
+            sub_at (st_reg st) (td_regions td) (fst x) off (snd x) /\
+            place_offset (st_reg st) td (fst x) = Some (off, Some (snd x)) /\
+            forall self, place_addr (st_reg st) td self (fst x) = Some (self + off)%N) h.
+Proof. exact conversions_offsets_whole_build. Qed.
+Print Assumptions C07_asref_offsets_whole_build.
